@@ -237,4 +237,52 @@ theorem gen_containerPackOpen (f : Bytes) (origin size : Nat) :
     | _ => rfl
   | _ => rfl
 
+/-! ### `ContentPack::new`, `DirectoryPack::new` -/
+
+/-- **Opening a content pack / a directory pack follows the source**: `contentOpen` and `directoryOpen` of the
+    reader model are `ContentPack::new` and `DirectoryPack::new` as translated on every run — pack header of the
+    right kind, the header of that kind, then the pointer tables (content infos of 4 bytes, every other table of
+    8-byte sized offsets) read as one checked block each, in the source's order. -/
+theorem gen_contentOpen (f : Bytes) :
+    contentOpen f =
+      Generated.contentPackNew ((readBlock f 0 60).bind fun hd => PackHeader.decode hd)
+        ((readBlock f 64 60).bind fun cb => ContentHeader.decode cb)
+        (fun w pos count => readBlock f pos (w * count)) := by
+  unfold contentOpen Generated.contentPackNew openHeader
+  simp only [bind, Outcome.bind_assoc'']
+  cases readBlock f 0 60 with
+  | ok hd =>
+    simp only [Outcome.bind_ok'']
+    cases PackHeader.decode hd with
+    | ok h =>
+      simp only [Outcome.bind_ok'']
+      by_cases hk : h.kind = PackKind.content
+      · simp [hk]
+        rfl
+      · simp [hk]
+        rfl
+    | _ => rfl
+  | _ => rfl
+
+theorem gen_directoryOpen (f : Bytes) :
+    directoryOpen f =
+      Generated.directoryPackNew ((readBlock f 0 60).bind fun hd => PackHeader.decode hd)
+        ((readBlock f 64 60).bind fun db => DirectoryHeader.decode db)
+        (fun w pos count => readBlock f pos (w * count)) := by
+  unfold directoryOpen Generated.directoryPackNew openHeader
+  simp only [bind, Outcome.bind_assoc'', Outcome.bind_ok'']
+  cases readBlock f 0 60 with
+  | ok hd =>
+    simp only [Outcome.bind_ok'']
+    cases PackHeader.decode hd with
+    | ok h =>
+      simp only [Outcome.bind_ok'']
+      by_cases hk : h.kind = PackKind.directory
+      · simp [hk]
+        rfl
+      · simp [hk]
+        rfl
+    | _ => rfl
+  | _ => rfl
+
 end Jubako
